@@ -221,6 +221,25 @@ func c17One(x *ctx, c importCase) bool {
 		lc.Files["sub/c.yaml"] = member("dc", "")
 		lc.Main = "f0.yaml"
 		wantTasks, wantPipes = []string{"t0", "da", "db", "dc"}, []string{"pda", "pdb", "pdc"}
+	case "global-imports-present", "global-imports-missing", "global-imports-unparsable", "global-imports-chain-missing":
+		// the GLOBAL configuration has imports of its own: its closure is loaded like any other (definitions of the
+		// imported file are available in the project), and a missing or unparsable file in it fails the load
+		lc.Home = map[string]string{".taskctl/config.yaml": "import: [shared.yaml]\ntasks:\n  gt:\n    command: echo g\n"}
+		switch c.Special {
+		case "global-imports-present":
+			lc.Home[".taskctl/shared.yaml"] = "tasks:\n  st:\n    command: echo s\n"
+			wantTasks = []string{"gt", "st", "t0"}
+		case "global-imports-unparsable":
+			lc.Home[".taskctl/shared.yaml"] = "tasks: [unclosed\n  x: {"
+			wantErr = true
+		case "global-imports-chain-missing":
+			lc.Home[".taskctl/shared.yaml"] = "import: [deeper.yaml]\ntasks:\n  st:\n    command: echo s\n"
+			wantErr = true
+		default:
+			wantErr = true
+		}
+		lc.Files["f0.yaml"] = "tasks:\n  t0:\n    command: echo 0\n"
+		lc.Main = "f0.yaml"
 	case "twice", "two-spellings", "dir-and-file":
 		imp := map[string]string{"twice": "[sub/f1.yaml, sub/f1.yaml]", "two-spellings": "[sub/f1.yaml, sub/../sub/f1.yaml, ./sub/f1.yaml]", "dir-and-file": "[sub, sub/f1.yaml]"}[c.Special]
 		lc.Files["f0.yaml"] = "import: " + imp + "\ntasks:\n  t0:\n    command: echo 0\n"
@@ -381,12 +400,21 @@ func unitC17(x *ctx) {
 				for _, b := range fm {
 					for _, c := range fm {
 						do(importCase{N: 3, Edges: es, Broken: -1, Formats: []string{a, b, c}})
+						// one file of the closure missing / unparsable IN ITS OWN FORMAT (also the main file)
+						for _, br := range []int{0, 1, 2} {
+							for _, how := range []string{"missing", "unparsable"} {
+								if br == 0 && how == "missing" {
+									continue
+								}
+								do(importCase{N: 3, Edges: es, Broken: br, How: how, Formats: []string{a, b, c}})
+							}
+						}
 					}
 				}
 			}
 		})
 	case "c17-special":
-		for _, s := range []string{"dir0", "dir1", "dir2", "dir-nested", "dir-sibling-later", "dir-sibling-earlier", "dir-member-imports-dir", "dir-siblings-both", "twice", "two-spellings", "dir-and-file", "dir-member-missing-import", "dir-member-unparsable", "dir-member-missing-import-2", "dir-member-dangling-symlink-free", "symlink-import", "symlink-dir-member", "symlink-global", "symlink-main"} {
+		for _, s := range []string{"dir0", "dir1", "dir2", "dir-nested", "dir-sibling-later", "dir-sibling-earlier", "dir-member-imports-dir", "dir-siblings-both", "global-imports-present", "global-imports-missing", "global-imports-unparsable", "global-imports-chain-missing", "twice", "two-spellings", "dir-and-file", "dir-member-missing-import", "dir-member-unparsable", "dir-member-missing-import-2", "dir-member-dangling-symlink-free", "symlink-import", "symlink-dir-member", "symlink-global", "symlink-main"} {
 			do(importCase{Special: s, Broken: -1, Formats: yaml3})
 		}
 		for split := 0; split < 16; split++ {
